@@ -331,6 +331,41 @@ func stationView(rm *lib.RegistrationManager, secret []byte, libver uint, v6 boo
 	return v
 }
 
+// dualView: the two registrations the real parseRegMessage makes of one dual-stack message; identifiers are
+// taken in the given order.
+func dualView(rm *lib.RegistrationManager, secret []byte, libver uint, gen uint32, tp tparam, v6first bool) (v4, v6 view, err error) {
+	m := vfix.Msg{Secret: secret, Transport: tp.tt, Params: tp.params, V4: true, V6: true, Gen: gen, LibVer: uint32(libver), Covert: "1.2.3.4:443", Source: pb.RegistrationSource_API, Addr: []byte{10, 0, 0, 1}}
+	regs, err := rm.VerifParseRegMessage(m.Bytes())
+	if err != nil {
+		return v4, v6, err
+	}
+	var r4, r6 *lib.DecoyRegistration
+	for _, r := range regs {
+		if r == nil {
+			continue
+		}
+		if r.PhantomIp.To4() != nil {
+			r4 = r
+		} else {
+			r6 = r
+		}
+	}
+	if r4 == nil || r6 == nil {
+		return v4, v6, fmt.Errorf("%d registrations, IPv4 %v IPv6 %v", len(regs), r4 != nil, r6 != nil)
+	}
+	mk := func(r *lib.DecoyRegistration) view {
+		return view{ip: r.PhantomIp.String(), port: r.PhantomPort, tag: hex.EncodeToString([]byte(rm.VerifIdentifier(r)))}
+	}
+	if v6first {
+		v6 = mk(r6)
+		v4 = mk(r4)
+	} else {
+		v4 = mk(r4)
+		v6 = mk(r6)
+	}
+	return v4, v6, nil
+}
+
 // clientView derives through the real client-side code.
 func clientView(secret []byte, libver uint, v6 bool, plist *pb.PhantomSubnetsList, tp tparam) view {
 	// keys: the in-repo client derivation is the library version 4 one; older
@@ -561,6 +596,7 @@ func main() {
 				h := sha256.New()
 				heavyOK := c.id == "A1R" || c.id == "A1r" || c.id == "A1R+D9r" || c.id == "D1R" || strings.HasPrefix(c.id, "file:lib")
 				_ = ci
+				single := map[string]view{} // station view per family/transport of this block, for the dual-stack comparison
 				for _, v6 := range []bool{false, true} {
 					for _, tp := range tps {
 						if tp.heavy && !heavyOK {
@@ -578,6 +614,7 @@ func main() {
 							continue
 						}
 						fmt.Fprintf(h, "%s=%s\n", id[strings.Index(id, ";v6"):], S.String())
+						single[fmt.Sprintf("%v/%s", v6, tp.id)] = S
 						if gen {
 							continue
 						}
@@ -640,6 +677,43 @@ func main() {
 						}
 						if e.Out.Evaluations%60013 == 1 {
 							e.Sample(map[string]any{"case": id, "station": S.String(), "client": C.String()})
+						}
+					}
+				}
+				// one message of a dual-stack client through the real parseRegMessage: each of the two registrations it
+				// yields must carry what the single-family derivation (and therefore the client) arrives at, in both
+				// orders of first use (transport state is derived lazily from the registration's key stream)
+				if !gen {
+					for _, tp := range tps {
+						if tp.heavy && !heavyOK {
+							continue
+						}
+						s4, ok4 := single["false/"+tp.id]
+						s6, ok6 := single["true/"+tp.id]
+						if !ok4 || !ok6 || s4.err != "" || s6.err != "" {
+							continue
+						}
+						for _, order := range []string{"v4first", "v6first"} {
+							if !e.Case() {
+								goto done
+							}
+							id := fmt.Sprintf("secret=%x;libver=%d;cfg=%s;v6=dual:%s;tp=%s", secret[:4], libver, c.id, order, tp.id)
+							var d4, d6 view
+							var derr error
+							if p, msg, site := venum.Guard(func() { d4, d6, derr = dualView(rm, secret, libver, uint32(ci+1), tp, order == "v6first") }); p {
+								e.Violation("panic:"+site, msg+" "+id, map[string]any{"case": id})
+								continue
+							}
+							cls := fmt.Sprintf("libver%d:%s", libver, strings.SplitN(tp.id, ":", 2)[0])
+							if derr != nil {
+								e.Violation("dual-stack-rejected:"+cls, fmt.Sprintf("%s: each family alone is derived, the dual-stack message fails: %v", id, derr), map[string]any{"case": id})
+								continue
+							}
+							if d4.String() != s4.String() {
+								e.Violation("dual-stack-differs:"+cls, fmt.Sprintf("%s: IPv4 registration of the dual-stack message %s, single-family derivation %s", id, d4.String(), s4.String()), map[string]any{"case": id})
+							} else if d6.String() != s6.String() {
+								e.Violation("dual-stack-differs:"+cls, fmt.Sprintf("%s: IPv6 registration of the dual-stack message %s, single-family derivation %s", id, d6.String(), s6.String()), map[string]any{"case": id})
+							}
 						}
 					}
 				}
